@@ -15,7 +15,7 @@ fn rv(s: &str) -> RV {
 }
 
 fn alphabet(n: usize) -> Vec<Spec6> {
-    let ts = ["/a", "/a/{x}", "/c/{r:.*}", "/b"];
+    let ts = ["/a", "/a/{x}", "/c/{r:.*}", "/b", "/"];
     let variants: Vec<(&str, Range, bool)> = vec![
         ("GET", Range::All, true),
         ("GET", Range::Until(rv("2.0.0")), true),
@@ -340,7 +340,7 @@ fn main() {
     let args = parse_args();
     quiet_panics();
     let level = "model_checking";
-    let probes: Vec<RV> = ["0.5.0", "1.0.0", "1.5.0", "2.0.0", "2.5.0", "3.0.0"].iter().map(|s| rv(s)).collect();
+    let probes: Vec<RV> = ["0.5.0", "1.0.0-alpha", "1.0.0", "1.5.0", "2.0.0-rc.1", "2.0.0", "2.5.0", "3.0.0"].iter().map(|s| rv(s)).collect();
     let cn = Cn {
         sets: AtomicU64::new(0), accepted: AtomicU64::new(0), histories: AtomicU64::new(0), registers: AtomicU64::new(0),
         docs: AtomicU64::new(0), evals: AtomicU64::new(0), nontrivial: AtomicU64::new(0), refs_resolved: AtomicU64::new(0),
@@ -378,15 +378,15 @@ fn main() {
     };
     match ctx.tier {
         Tier::Quick => {
-            run("singles(32)", &alphabet(32), 1);
-            run("pairs(32)", &alphabet(32), 2);
-            run("triples(16)", &alphabet(16), 3);
+            run("singles(40)", &alphabet(40), 1);
+            run("pairs(40)", &alphabet(40), 2);
+            run("triples(20)", &alphabet(20), 3);
         }
         Tier::Thorough => {
-            run("singles(32)", &alphabet(32), 1);
-            run("pairs(32)", &alphabet(32), 2);
-            run("triples(32)", &alphabet(32), 3);
-            run("quads(20)", &alphabet(20), 4);
+            run("singles(40)", &alphabet(40), 1);
+            run("pairs(40)", &alphabet(40), 2);
+            run("triples(40)", &alphabet(40), 3);
+            run("quads(25)", &alphabet(25), 4);
         }
     }
     let cov = json!({
